@@ -132,6 +132,9 @@ def obligations(tier, seed):
             out.append(r)
     for r in _c12.ws_front_obligations(core, (2,) if tier == "quick" else (2, 3)):
         out.append(r)
+    for r in _c12.ws_backend_obligations(core, [(2, 2), (3, 2)] if tier == "quick" else [(2, 2), (3, 2), (2, 3), (3, 3)]):
+        if r.get("name", "").endswith(":positional"):
+            out.append(r)
     return out
 
 
